@@ -526,6 +526,7 @@ namespace Givaro
         if (ch != ')')
             std::cerr << "Modular<Log16>::read: syntax error: no ')'" << std::endl;
 
+        *this = Modular<Log16>(_p); // the tables (and zero, mOne) belong to the modulus
         return s;
     }
 
